@@ -43,6 +43,9 @@ pub fn dispatch(req: &Value) -> Value {
         "relations" => op_relations(req),
         "total" => op_total(req),
         "ext" => op_ext(req),
+        "satisfied" => op_satisfied(req),
+        "lossy_doc" => op_lossy_doc(req),
+        "lossy_edits" => op_lossy_edits(req),
         "codec" => op_codec(req),
         "codec_parse" => op_codec_parse(req),
         "pgp" => match debian_control::pgp::strip_pgp_signature(&s(req, "s")) {
@@ -325,4 +328,81 @@ fn op_codec_parse(req: &Value) -> Value {
         "YesNoForce" => match apt_sources::YesNoForce::from_str(t) { Ok(w) => json!({"ok": true, "text": (&w).to_string()}), Err(_) => json!({"ok": false}) },
         other => json!({"error": format!("unknown codec type {}", other)}),
     }
+}
+
+fn lossy_para(v: &Value) -> deb822_lossless::lossy::Paragraph {
+    let fields: Vec<(String, String)> = v.as_array().map(|a| a.iter().map(|kv| (js(&kv[0]), js(&kv[1]))).collect()).unwrap_or_default();
+    fields.into()
+}
+
+/// C08: build a lossy document from (name, value) lists, print it, read it back with both readers
+fn op_lossy_doc(req: &Value) -> Value {
+    use deb822_lossless::lossy;
+    let paras: Vec<lossy::Paragraph> = req["paras"].as_array().map(|a| a.iter().map(lossy_para).collect()).unwrap_or_default();
+    // a lossy::Deb822 can only be obtained by parsing: parse a placeholder with as many paragraphs, then assign
+    let placeholder: String = (0..paras.len()).map(|_| "x: y\n").collect::<Vec<_>>().join("\n");
+    let mut doc = lossy::Deb822::from_str(&placeholder).unwrap();
+    for (slot, p) in doc.iter_mut().zip(paras.iter()) { *slot = p.clone(); }
+    let text = doc.to_string();
+    let single = if paras.len() == 1 { Some(paras[0].to_string()) } else { None };
+    let back = guarded(|| match lossy::Deb822::from_str(&text) {
+        Ok(d) => json!({"ok": true, "eq": d == doc, "paras": paras_lossy(&d), "text2": d.to_string()}),
+        Err(e) => json!({"ok": false, "err": e.to_string()}),
+    });
+    let lossless = guarded(|| match deb822_lossless::Deb822::from_str(&text) {
+        Ok(d) => json!({"ok": true, "paras": paras_lossless(&d)}),
+        Err(e) => json!({"ok": false, "err": e.to_string()}),
+    });
+    let para_back = match &single { Some(t) => guarded(|| match lossy::Paragraph::from_str(t) { Ok(p) => json!({"ok": true, "eq": p == paras[0]}), Err(e) => json!({"ok": false, "err": e.to_string()}) }), None => Value::Null };
+    json!({"text": text, "para_text": single, "back": back, "lossless": lossless, "para_back": para_back})
+}
+
+fn lossy_state(p: &deb822_lossless::lossy::Paragraph, probe: &str) -> Value {
+    json!({"items": p.iter().map(|(k, v)| json!([k, v])).collect::<Vec<_>>(), "len": p.len(), "get": p.get(probe), "is_empty": p.is_empty()})
+}
+/// C08: apply get/set/insert/remove to a lossy paragraph, report the state after every step
+fn op_lossy_edits(req: &Value) -> Value {
+    let mut p = lossy_para(&req["fields"]);
+    let probe = s(req, "probe");
+    let mut states = vec![lossy_state(&p, &probe)];
+    for op in req["ops"].as_array().cloned().unwrap_or_default() {
+        let (name, val) = (js(&op[1]), js(&op[2]));
+        match op[0].as_str().unwrap_or("") {
+            "set" => p.set(&name, &val),
+            "insert" => p.insert(&name, &val),
+            "remove" => p.remove(&name),
+            _ => {}
+        }
+        states.push(lossy_state(&p, &probe));
+    }
+    json!({"states": states})
+}
+
+/// C12: evaluate a relationship field against installed versions with every evaluator and lookup form
+fn op_satisfied(req: &Value) -> Value {
+    use debian_control as dc;
+    use std::collections::HashMap;
+    let text = s(req, "s");
+    let mut map: HashMap<String, debversion::Version> = HashMap::new();
+    if let Some(o) = req["installed"].as_object() { for (k, v) in o { if let Some(vs) = v.as_str() { map.insert(k.clone(), vs.parse().unwrap()); } } }
+    let m2 = map.clone();
+    let lookup = move |name: &str| -> Option<debversion::Version> { m2.get(name).cloned() };
+    let lossless = guarded(|| {
+        let r: dc::lossless::relations::Relations = text.parse().map_err(|e: String| e).unwrap();
+        let entries: Vec<bool> = r.entries().map(|e| e.satisfied_by(&lookup)).collect();
+        json!({"all": r.satisfied_by(&lookup), "entries": entries})
+    });
+    let lossy = guarded(|| {
+        let r: dc::lossy::Relations = text.parse().map_err(|e: String| e).unwrap();
+        let all_closure = r.satisfied_by(&lookup);
+        let mut rels = vec![];
+        for e in r.0.iter() { for rel in e.iter() {
+            let by_closure = rel.satisfied_by(&lookup);
+            let by_map = rel.satisfied_by(map.clone());
+            let by_pair = if map.len() == 1 { let (k, v) = map.iter().next().unwrap(); Some(rel.satisfied_by((k.clone(), v.clone()))) } else { None };
+            rels.push(json!({"closure": by_closure, "map": by_map, "pair": by_pair}));
+        } }
+        json!({"all": all_closure, "relations": rels})
+    });
+    json!({"lossless": lossless, "lossy": lossy})
 }
